@@ -477,6 +477,40 @@ def line_mode(ctx, fi, data, r5='C04.D5', r6='C04.D6'):
                                         kind(x[3]) == 'sub' and
                                         x[3][1] == data))):
                         feeds = True
+                # the length limit is a limit on ONE line: it may reject a
+                # complete line, or what is left when no complete line is
+                # buffered - never the whole buffer before the lines in it
+                # were taken out (after the last handshake line the buffer
+                # legitimately holds any amount of binary messages)
+                seen_loop = False
+                for ev in p.trace:
+                    if ev[0] == 'loop':
+                        seen_loop = True
+                    arg = None
+                    if ev[0] == 'enter' and ev[1].endswith(
+                            '.authMessageLengthExceeded') and ev[3][3]:
+                        arg = ev[3][3][0]
+                    if ev[0] == 'call' and (ev[1][1] or '').endswith(
+                            '.authMessageLengthExceeded') and ev[1][3]:
+                        arg = ev[1][3][0]
+                    if arg is None:
+                        continue
+                    is_line = kind(arg) == 'sub' and kind(arg[1]) == 'call' \
+                        and kind(arg[1][2]) == 'attr' and \
+                        arg[1][2][2] in ('partition', 'split')
+                    no_delim = any(
+                        kind(c) == 'cmp' and c[1] in ('in', 'not in') and
+                        c[2] == delim and c[3] == arg and
+                        ((c[1] == 'in') != pol) for c, pol in p.cond)
+                    ok = is_line or no_delim or (
+                        seen_loop and kind(arg) == 'loopout')
+                    ctx.ob(r6, q, 'length-limit-on-one-line', ok,
+                           'the %d-byte limit rejects %s on a path that has '
+                           'not taken the complete lines out of it: a read '
+                           'that carries the last handshake line together '
+                           'with more than that many bytes of messages '
+                           'drops the connection' % (
+                               16384, term_str(arg)[:60]))
                 n_feed += 1
                 ctx.ob(r6, q, 'every-path-concatenates', feeds,
                        'a line-mode path does not look at buffer + chunk: '
